@@ -159,9 +159,17 @@ def lattice_shape(ctx):
     ok = len(eos) == 1 and all(must_pass(fa, r, {eos[0][0]}) for r in rets)
     ctx.ob("LATTICE", "build_lattice_inner|eos-on-every-path", ok, fn_loc(crate, p),
            "every path ends by connecting EOS" if ok else "EOS is not inserted on every path")
-    names = fa.fn.local_names()
-    sn = [l for l, n in names.items() if n == "start_node"]
-    sw = [l for l, n in names.items() if n == "start_word"]
+    # the two position variables, identified by where they go (not by their names): the linking
+    # boundary is argument 3 of add_lattice_edges, the word start argument 4
+    edges0 = calls_named(fa, "add_lattice_edges")
+    sn, sw = [], []
+    if len(edges0) == 1:
+        b3 = base_local(fa, edges0[0][1]["args"][3])
+        b4 = base_local(fa, edges0[0][1]["args"][4])
+        if b3 and b4 and b3[0] != b4[0]:
+            sn, sw = [b3[0]], [b4[0]]
+    if not sn:
+        raise EngineError("LATTICE: the linking boundary / word start variables were not identified")
     if eos and sn:
         bl = base_local(fa, eos[0][1]["args"][1])
         ok = bl is not None and bl[0] in sn
@@ -196,6 +204,42 @@ def lattice_shape(ctx):
     ctx.ob("LATTICE", "build_lattice_inner|space-run-from-start_node", bool(ok), fn_loc(crate, p),
            "the SPACE test and the length of the skipped run are both taken at start_node" if ok else
            "the SPACE test / skipped run length are not taken at start_node")
+    # loop guard and the trailing-space exit: comparisons of the word start with the sentence length
+    from r_cand import _lin
+    eb = edges0[0][0]
+    cmps = []
+    for b in sorted(fa.dominators().get(eb, ())):
+        t = fa.term(b)
+        if t["k"] != "switch":
+            continue
+        e = S.operand(t["op"])
+        if e[0] == "binop" and e[1] in ("Lt", "Le", "Gt", "Ge", "Eq", "Ne") and "len_char" in show(e):
+            f_t, t_t = bool_switch_targets(t)
+            to_edges_true = eb in fa.reachable(t_t, avoid={f_t})
+            (lt, lc), (rt, rc) = _lin(e[2]), _lin(e[3])
+            opn = e[1] if to_edges_true else {"Lt": "Ge", "Le": "Gt", "Gt": "Le", "Ge": "Lt", "Eq": "Ne", "Ne": "Eq"}[e[1]]
+            pos_left = "len_char" not in lt
+            cmps.append((b, opn, (rc - lc) if pos_left else (lc - rc), pos_left, show(e)))
+    # (1) some dominating comparison establishes  pos - len < 0  (strictly inside the sentence)
+    strict = [c for c in cmps if (c[3] and ((c[1] == "Lt" and c[2] == 0) or (c[1] == "Le" and c[2] == -1))) or
+              (not c[3] and ((c[1] == "Gt" and c[2] == 0) or (c[1] == "Ge" and c[2] == 1)))]
+    ctx.ob("LATTICE", "build_lattice_inner|loop-covers-every-position", bool(strict), fn_loc(crate, p),
+           "candidates are generated while the word start is < len_char (every character position is "
+           "visited)" if strict else
+           "no dominating test establishes `word start < len_char` with offset 0 before candidates "
+           "are generated (%s): the last position is skipped or one past the end is processed"
+           % [c[4][:60] for c in cmps])
+    # (2) after the skipped space run the position is compared with the length again
+    grb = gr[0][0] if gr else None
+    head = {c[0] for c in strict}
+    after = [c for c in cmps if grb is not None and c[0] not in head and
+             c[0] in fa.reachable(grb, avoid=head) and
+             (c[1] in ("Ne", "Lt") and c[2] == 0 and c[3] or c[1] in ("Ne", "Gt") and c[2] == 0 and not c[3])]
+    ctx.ob("LATTICE", "build_lattice_inner|trailing-spaces-end-the-sentence", bool(after), fn_loc(crate, p),
+           "after a skipped space run the position is compared with len_char before candidates are "
+           "generated" if after else
+           "after skipping a space run the position is not compared with the sentence length: a "
+           "sentence that ends in spaces generates candidates one past its end")
 
 
 def spaceopt(ctx):
